@@ -638,4 +638,3 @@ package allocator
 // never refused because store and memory have drifted apart (the address would stay bound for good).
 //@ func (s *MemoryAllocationStore) RemoveAllocation
 //@   ensures err == nil
-
